@@ -235,7 +235,8 @@ prop(
 
 prop(
     id="C15",
-    stages=[dict(name="c14config", pkg="c14", test="TestC14Config", access=[FILE_ACCESS], timeout_quick=300, timeout_thorough=3000),
+    stages=[dict(name="c15big", pkg="c14", test="TestC15BigFile", access=[FILE_ACCESS], timeout_quick=300, timeout_thorough=3000),
+            dict(name="c14config", pkg="c14", test="TestC14Config", access=[FILE_ACCESS], timeout_quick=300, timeout_thorough=3000),
             dict(name="c15runs", pkg="c15", test="TestC15Runs", access=[RUN_ACCESS, WORKERS_ACCESS], timeout_quick=300, timeout_thorough=3000),
             dict(name="c15trigger", pkg="c15", test="TestC15Trigger", access=[RUN_ACCESS, WORKERS_ACCESS], timeout_quick=300, timeout_thorough=3000)],
     rule="(a) generated configs (1-5 stages, all modes, random omissions, defaults) x now at every interesting instant relative to stage-start (before, each stage boundary +-1ns, after the end) "
